@@ -67,7 +67,17 @@ def meta_case(draw):
                 lines.append('IGNORE no-such-file')
             dist[p] = '\n'.join(lines) + '\n'
     edits = draw(repogen.repo_edits(r, max_ops=5))
-    return {'repo': r, 'dist': dist, 'edits': edits}
+    pkgs = sorted({os.path.dirname(f) for f in r['files']
+                   if f.count('/') == 2
+                   and f.split('/')[0] in repogen.CATS})
+    broken = None
+    if pkgs and draw(st.integers(0, 7)) == 0:
+        # an object that cannot be read (dangling symlink) in a package
+        broken = draw(st.sampled_from(pkgs)) + draw(st.sampled_from(
+            ['/files/broken-link', '/broken-link']))
+    return {'repo': r, 'dist': dist, 'edits': edits,
+            # the generator is run again over its own output
+            'rerun': draw(st.booleans()), 'broken': broken}
 
 
 def strat_meta(tier):
@@ -119,6 +129,27 @@ def run_meta(desc):
         classes = []
         script = os.path.join(harness.REPO, 'utils',
                               'gen_fast_metamanifest.py')
+        if desc.get('broken'):
+            os.makedirs(os.path.dirname(os.path.join(root, desc['broken'])),
+                        exist_ok=True)
+            os.symlink('no-such-target', os.path.join(root, desc['broken']))
+            p = subprocess.run([sys.executable, script, root],
+                               capture_output=True, text=True)
+            classes.append('unreadable-object')
+            if p.returncode != 0:
+                # the failure is reported: nothing more is claimed
+                return ok(nontrivial=True,
+                          classes=classes + ['generator-reported-failure'])
+            oc, records, _ = gem.cli(['verify', root])
+            if oc.kind != 'return' or oc.value != 0:
+                return violation(
+                    f'gen_fast_metamanifest.py exited 0 on a tree with the '
+                    f'dangling symlink {desc["broken"]!r} but its output '
+                    f'does not verify: {oc.describe()} '
+                    f'{[r.getMessage()[:200] for r in gem.error_records(records)]}',
+                    sig='failure-not-reported', classes=classes)
+            return ok(nontrivial=True,
+                      classes=classes + ['generator-coped'])
         p = subprocess.run([sys.executable, script, root],
                            capture_output=True, text=True)
         if p.returncode != 0:
@@ -135,6 +166,26 @@ def run_meta(desc):
         v = check_generated(root, 'Manifest', what, classes, expect_dist)
         if v is not None:
             return v
+        if desc.get('rerun'):
+            p = subprocess.run([sys.executable, script, root],
+                               capture_output=True, text=True)
+            if p.returncode != 0:
+                return violation(
+                    f'second run of gen_fast_metamanifest.py over its own '
+                    f'output failed (rc {p.returncode}): {p.stderr[-1500:]}',
+                    sig='script-failed:second-run', classes=classes)
+            what = 'output of a second gen_fast_metamanifest.py run'
+            oc, records, _ = gem.cli(['verify', root])
+            if oc.kind != 'return' or oc.value != 0:
+                return violation(
+                    f'{what}: `gemato verify` fails: {oc.describe()} '
+                    f'{[r.getMessage()[:200] for r in gem.error_records(records)]}',
+                    sig='verify-generated:second-run:' + oc.kind,
+                    classes=classes)
+            v = check_generated(root, 'Manifest', what, classes, expect_dist)
+            if v is not None:
+                return v
+            classes.append('second-run')
         before = fsnap.snapshot(root)
         oc, records, _ = gem.cli(['update', '-p', 'ebuild', root])
         if oc.kind != 'return' or oc.value != 0:
